@@ -230,14 +230,25 @@ fn eval(mock: &Mock, host: &Arc<Mutex<HostState>>, workdir: &str, case: &Case, s
         done2.store(true, std::sync::atomic::Ordering::SeqCst);
         Ok(())
     });
-    rt.block_on(async {
-        let shared = SharedState::start_all();
-        *shared_cell.lock().unwrap() = Some(tokio_util_token::Token(shared.get_cancellation_token()));
-        let reader = EventReader::new(dir.clone(), false, shared.get_cancellation_token(), shared.get_key_keeper_shared_state(), shared.get_telemetry_shared_state(), shared.get_agent_status_shared_state());
-        reader.start(Some(Duration::from_millis(10)), Some("127.0.0.1"), Some(port)).await;
+    // the reader runs on its own thread: if it ever spins without reaching an await point, the verdict is still given
+    let (tx, rx) = std::sync::mpsc::channel::<()>();
+    let dir3 = dir.clone();
+    let reader_thread = std::thread::spawn(move || {
+        rt.block_on(async {
+            let shared = SharedState::start_all();
+            *shared_cell.lock().unwrap() = Some(tokio_util_token::Token(shared.get_cancellation_token()));
+            let reader = EventReader::new(dir3, false, shared.get_cancellation_token(), shared.get_key_keeper_shared_state(), shared.get_telemetry_shared_state(), shared.get_agent_status_shared_state());
+            reader.start(Some(Duration::from_millis(10)), Some("127.0.0.1"), Some(port)).await;
+        });
+        drop(rt);
+        let _ = tx.send(());
     });
-    drop(rt);
-    let term = watcher.join().unwrap_or_else(|_| Err("watcher panicked".into()));
+    let mut term = watcher.join().unwrap_or_else(|_| Err("watcher panicked".into()));
+    if rx.recv_timeout(Duration::from_secs(if term.is_ok() { 20 } else { 5 })).is_ok() {
+        let _ = reader_thread.join();
+    } else if term.is_ok() {
+        term = Err("the reader did not return after it was cancelled (it no longer reaches an await point)".into());
+    }
     let _ = done;
     let posts: Vec<(Vec<u8>, bool)> = host.lock().unwrap().posts.clone();
 
